@@ -14,7 +14,7 @@ from typing import Any, Dict, Iterable, List, Optional
 
 from harness import containers as C
 from harness import translate_archives as translate
-from harness.core import Case, Check, Finding, call, canon, jdump, short
+from harness.core import OUTSIDE, Case, Check, Finding, call, canon, jdump, short
 
 BAD_ARCHIVE = {'BadZipFile', 'ReadError', 'Bad7zFile', 'TarError', 'CompressionError', 'HeaderError',
                'EOFError', 'error', 'LZMAError', 'ArchiveError', 'OSError', 'BadGzipFile'}
@@ -119,7 +119,9 @@ class C12(Check):
                   'name, path, bytes and chain for archive trees of unbounded depth, names-only, and that the '
                   'single-file parser depends on the content only; SAMPLED on real containers: that zipfile / tarfile / '
                   'py7zr list members faithfully and in archive order, that expat treats str / bytes / file content '
-                  'alike, and glob\'s directory walk')
+                  'alike, and glob\'s directory walk. Archive trees beyond the quantifier (7z in or around other '
+                  'containers, corrupt / mislabelled containers, members with an archive extension) are mirrored as an '
+                  'observation only (tagged outside-quantifier: differences recorded, not judged)')
     assumptions = ['zipfile, tarfile and py7zr list the regular members of a container in archive order with their exact '
                    'bytes; member names are distinct within one container (zipfile opens members by name)',
                    'posixpath.split/splitext/normpath transcribed by hand (os.sep = "/"), checked on adversarial paths',
@@ -262,6 +264,14 @@ class C12(Check):
             s = ''.join(rng.choice(['a', 'b', '.', '..', '/', '\\', '.tar', '.gz', '.bz2', '.zip', '.7z', '.tgz', ' ', 'é'])
                         for _ in range(n))
             out.append(Case('paf', {'s': s}, ['random']))
+        # WAVE 3: archive trees "beyond the statement" (7z inside zip/tar, archives inside 7z, corrupt or mislabelled
+        # containers, members carrying an archive extension: the quantifier is "zip and tar archives nested inside zip
+        # and tar archives", "accepted file-name extensions") are mirrored by the model only as an observation; the
+        # oracle never judged them: a difference is recorded in the evidence, it breaks no obligation
+        for c in out:
+            if c.kind == 'archive' and OUTSIDE not in c.tags and \
+                    ('beyond' in c.tags or not _judged(c.input['members'], c.input['kind'])):
+                c.tags.append(OUTSIDE)
         return out
 
     # ---------------------------------------------------------------- implementation
